@@ -204,6 +204,29 @@ def node_replace(old_kind, action, nid, extra=0, twice=0):
     if twice:
         old.associate_network(net)
     new = None
+    if action == "same":
+        # the very same node object is added again (add_node twice / net[i] = net[i]): it must stay connected
+        if sx.choice(2, "via_setitem"):
+            net[nid] = old
+        else:
+            net.add_node(old) if old_kind == "remote" else net.create_node(old)
+        n0 = len(sent)
+        try:
+            net.notify(0x580 + nid, sx.fresh_bytes("sdo", 8), 1.0)
+            net.notify(0x80 + nid, sx.fresh_bytes("emcy", 8), 3.0)
+            net.notify(0x600 + nid, sx.mkbytes([0x40, 0x00, 0x10, 0, 0, 0, 0, 0]), 5.0)
+        except Exception as e:
+            sx.fail("re-added node raised %s" % C.exc_name(e), "C10/node/%s-same/raises" % old_kind)
+            return
+        if old_kind == "remote":
+            sx.prove(not old.sdo.responses.empty() and len(old.emcy.log) == 1,
+                     "a node added twice no longer receives its frames", "C10/node/remote-same/receives")
+        else:
+            sx.prove(any(c == 0x580 + nid for c, d in sent[n0:]), "a local node added twice no longer answers",
+                     "C10/node/local-same/receives")
+        sx.prove(old.has_network(), "a node added twice lost its network", "C10/node/%s-same/network" % old_kind)
+        sx.reach("node-same")
+        return
     if action == "delete":
         del net[nid]
     else:
@@ -278,12 +301,13 @@ def listener():
     rtr = bool(sx.choice(2, "rtr"))
     cid = sx.fresh_int("id", 0, ID_MAX)
     data = sx.fresh_bytes("d", 8)
+    ts = sx.fresh_int("ts", 0, 1 << 40)           # includes 0: "no timestamp" must not be special
     msg = netmod.can.Message(arbitration_id=cid, data=data if not rtr else None, is_error_frame=err,
-                             is_remote_frame=rtr, timestamp=12.5, is_extended_id=True)
+                             is_remote_frame=rtr, timestamp=ts, is_extended_id=True)
     lst.on_message_received(msg)
     sx.prove(len(got) == (0 if (err or rtr) else 1), "error and remote frames are not dispatched", "C10/listener/filter")
     if got:
-        sx.prove((got[0][0] == cid) & (got[0][2] == 12.5) & sx.eq_bytes(sx.mkbytes(sx.items(got[0][1])), data),
+        sx.prove((got[0][0] == cid) & (got[0][2] == ts) & sx.eq_bytes(sx.mkbytes(sx.items(got[0][1])), data),
                  "dispatched with id, data, timestamp", "C10/listener/arguments")
     sx.reach("listener")
 
@@ -321,6 +345,7 @@ def jobs(tier):
         for first in OPS:
             out.append(dict(func="history", params=dict(k=k, first=first), weight=10 ** k))
     for old in ("remote", "local"):
+        out.append(dict(func="node_replace", params=dict(old_kind=old, action="same", nid=4)))
         for action in ("delete", "remote", "local"):
             for nid in (1, 2, 127):
                 out.append(dict(func="node_replace", params=dict(old_kind=old, action=action, nid=nid)))
@@ -356,7 +381,7 @@ META = dict(
     assumptions=[],
     stubs=["can (recording model)", "dict displays -> SymDict", "threading.Lock", "queue", "logging"],
     required_reach=["step", "op-subscribe", "op-unsubscribe", "op-unsubscribe-missing", "op-notify", "history",
-                    "node-delete", "node-remote", "node-local", "node-extra-channel", "outgoing", "listener", "scanner"],
+                    "node-delete", "node-remote", "node-local", "node-extra-channel", "node-same", "outgoing", "listener", "scanner"],
     limits=dict(quick=dict(max_decisions=20000), thorough=dict(max_decisions=20000, job_timeout_s=3000)),
     validate_every=dict(quick=11, thorough=101),
     max_validate=dict(quick=60, thorough=60),
